@@ -876,6 +876,66 @@ func literalTableRule(w *World, r *Report, e *Engine, rule string) {
 			}
 		}
 	}
+	// ... or the identifiers are looked up in a table of the package (var literals = map[string]MalType{...})
+	for _, f := range w.withPkgHelpers(ra) {
+		for _, b := range f.Blocks {
+			for _, in := range b.Instrs {
+				lk, ok := in.(*ssa.Lookup)
+				if !ok {
+					continue
+				}
+				ld, ok := lk.X.(*ssa.UnOp)
+				if !ok {
+					continue
+				}
+				g, ok := ld.X.(*ssa.Global)
+				if !ok || g.Pkg != f.Pkg {
+					continue
+				}
+				mt, ok := lk.X.Type().Underlying().(*types.Map)
+				if !ok || !isBasic(mt.Key(), types.String) || !types.IsInterface(mt.Elem()) {
+					continue
+				}
+				// the one table stored into the variable by the package initialiser, and what was put into it
+				initFn := f.Pkg.Func("init")
+				if initFn == nil {
+					continue
+				}
+				for _, ib := range initFn.Blocks {
+					for _, iin := range ib.Instrs {
+						st, ok := iin.(*ssa.Store)
+						if !ok || st.Addr != ssa.Value(g) || st.Val.Referrers() == nil {
+							continue
+						}
+						for _, ref := range *st.Val.Referrers() {
+							mu, ok := ref.(*ssa.MapUpdate)
+							if !ok || mu.Map != st.Val {
+								continue
+							}
+							key, isK := constString(mu.Key)
+							if !isK {
+								r.bad(rule, initFn, "entry of the table of literal identifiers", mu.Pos(), "the table of identifiers read as values has a key that is not a constant: which names are taken away from the symbols cannot be told")
+								continue
+							}
+							n++
+							want := "?"
+							switch {
+							case isNilConst(mu.Value):
+								want = printerNil
+							default:
+								if mi, ok := mu.Value.(*ssa.MakeInterface); ok {
+									if c, ok := mi.X.(*ssa.Const); ok && c.Value != nil && c.Value.Kind() == constant.Bool {
+										want = c.Value.String()
+									}
+								}
+							}
+							r.check(key == want, rule, f, fmt.Sprintf("identifier %q read as a value (table)", key), mu.Pos(), "the printer's spelling of that value", fmt.Sprintf("the identifier %q is read as a value the printer writes %q (or not as a bare word at all): the symbol named %s is printed as %s and read back as that value, not as the symbol", key, want, key, key))
+						}
+					}
+				}
+			}
+		}
+	}
 	r.floor(rule, "identifiers read as values", n, 3)
 }
 
@@ -1221,4 +1281,258 @@ func typedNilResultRule(w *World, r *Report, e *Engine, rule string) {
 		}
 	}
 	r.floor(rule, "bound functions with a pointer result", n, 2)
+}
+
+// readerReentryRule: reading a text is one pass over its tokens: the recursion of the reader is over nested
+// brackets of that one token stream, which every level shortens. A reader function that starts reading another
+// text from within (a value kept as text and read on first use) opens a recursion no token stream bounds: a
+// value that mentions itself never ends, and the host stack overflow that follows cannot be recovered.
+func readerReentryRule(w *World, r *Report, rule string) {
+	r.rule(rule, "no function that the reader's entry point (Read_str) reaches through calls inside the module calls the entry point or the tokenizer again: the reader never starts reading a second text while it is reading one (the depth of its recursion is bounded by the brackets of the one text)")
+	entry := w.Fn("reader", "Read_str")
+	tok := w.Fn("reader", "tokenize")
+	if entry == nil || tok == nil {
+		r.undecided(rule, nil, "reader.Read_str / tokenize", token.NoPos, "functions no longer resolve")
+		return
+	}
+	reach := map[*ssa.Function]bool{}
+	var visit func(f *ssa.Function)
+	visit = func(f *ssa.Function) {
+		if reach[f] || len(f.Blocks) == 0 || !inModule(f) || isTestFunc(w, f) {
+			return
+		}
+		reach[f] = true
+		for _, b := range f.Blocks {
+			for _, in := range b.Instrs {
+				if ci, ok := in.(ssa.CallInstruction); ok {
+					if g := ci.Common().StaticCallee(); g != nil {
+						visit(g)
+					}
+				}
+			}
+		}
+		for _, an := range f.AnonFuncs {
+			visit(an)
+		}
+	}
+	// what the entry point reaches, not counting itself
+	for _, b := range entry.Blocks {
+		for _, in := range b.Instrs {
+			if ci, ok := in.(ssa.CallInstruction); ok {
+				if g := ci.Common().StaticCallee(); g != nil && g != tok {
+					visit(g)
+				}
+			}
+		}
+	}
+	n := 0
+	var fns []*ssa.Function
+	for _, f := range w.Funcs {
+		if reach[f] {
+			fns = append(fns, f)
+		}
+	}
+	for _, f := range fns {
+		for _, b := range f.Blocks {
+			for _, in := range b.Instrs {
+				ci, ok := in.(ssa.CallInstruction)
+				if !ok {
+					continue
+				}
+				g := ci.Common().StaticCallee()
+				if g != entry && g != tok {
+					continue
+				}
+				n++
+				r.bad(rule, f, "call of "+g.Name()+" from inside the reader", in.Pos(), w.fnName(f)+" is reached from the reader's entry point and starts reading another text: nothing bounds that recursion (a text that leads back to itself overflows the host stack, which no recover catches)")
+			}
+		}
+	}
+	r.add(rule, nil, "functions the reader's entry point reaches", token.NoPos, "ok", fmt.Sprintf("%d functions examined, %d re-entries", len(fns), n))
+}
+
+// variadicNotCappedRule: swap! hands the update function the current value and every further argument:
+// (swap! a f x y z ...). Its Go implementation is variadic and registered without an upper bound; a declared
+// maximum cuts calls with more arguments off before the update function is ever applied.
+func variadicNotCappedRule(w *World, r *Report, rule string, lispNames ...string) {
+	r.rule(rule, "the registrations of "+strings.Join(lispNames, ", ")+" (variadic Go functions taking any number of further arguments) declare no upper bound on the number of arguments, or the binder's 'unlimited' value: (swap! a f x y z) applies f to the current value and all of x y z")
+	callB := w.Fn("lib/call", "CallOverrideFN")
+	if callB == nil {
+		r.undecided(rule, nil, "call.CallOverrideFN", token.NoPos, "function no longer resolves")
+		return
+	}
+	want := map[string]bool{}
+	for _, n := range lispNames {
+		want[n] = true
+	}
+	unlimited := int64(1000)
+	if pkg := w.ByPath[modPath+"/lib/call"]; pkg != nil {
+		if c, ok := pkg.Types.Scope().Lookup("unlimitedArgments").(*types.Const); ok {
+			if v, ok := constant.Int64Val(c.Val()); ok {
+				unlimited = v
+			}
+		}
+	}
+	n := 0
+	for _, fn := range w.Funcs {
+		if isTestFunc(w, fn) {
+			continue
+		}
+		for _, c := range staticCallsTo(fn, callB) {
+			name, ok := constString(c.Call.Args[1])
+			if !ok || !want[name] {
+				continue
+			}
+			n++
+			bounds := sliceLiteralElems(c.Call.Args[len(c.Call.Args)-1])
+			okB := true
+			detail := "no bounds declared"
+			if len(bounds) >= 2 {
+				k, isK := bounds[1].(*ssa.Const)
+				if !isK || k.Value == nil || k.Int64() < unlimited {
+					okB = false
+					detail = "a maximum of " + describeVal(nil, bounds[1], 0) + " arguments is declared"
+				}
+			}
+			r.check(okB, rule, fn, "bounds declared for "+name, c.Pos(), "none, or the unlimited value", detail+": calls that pass more arguments to the update function are refused by the binder, so nothing is applied and nothing installed")
+		}
+	}
+	r.floor(rule, "registrations examined", n, len(lispNames))
+}
+
+// printPureRule: the debugger's reporting prints forms and results (PRINT on every stepped-over result), and
+// programs print too. Printing a value changes nothing: the printer and the LispPrint methods of the module's
+// types take nothing out of a channel, send nothing, and store into no field of the value they print.
+func printPureRule(w *World, r *Report, rule string) {
+	r.rule(rule, "the printer and every LispPrint method of the module only read the value they print: no channel receive, send or select, no store to a field reached through the receiver or a parameter, no mutating sync/atomic operation (a future or atom whose printed form is computed by taking its outcome or setting a flag changes when a stepper - which prints every result it steps over - is installed)")
+	n := 0
+	for _, fn := range w.Funcs {
+		if isTestFunc(w, fn) || !inModule(fn) || len(fn.Blocks) == 0 {
+			continue
+		}
+		isPrinter := strings.HasSuffix(fnPkgPath(fn), "/printer") || (fn.Signature.Recv() != nil && fn.Name() == "LispPrint")
+		if !isPrinter {
+			continue
+		}
+		n++
+		clean := true
+		bad := func(in ssa.Instruction, what string) {
+			clean = false
+			r.bad(rule, fn, what, in.Pos(), "printing is not a pure reading of the value: "+what+" in "+w.fnName(fn)+" changes the value (or what other readers of it get) whenever it is printed, and a stepper prints every result it steps over")
+		}
+		fromOutside := func(addr ssa.Value) bool {
+			for i := 0; i < 6; i++ {
+				switch x := addr.(type) {
+				case *ssa.FieldAddr:
+					addr = x.X
+				case *ssa.IndexAddr:
+					addr = x.X
+				case *ssa.UnOp:
+					addr = x.X
+				case *ssa.Parameter, *ssa.FreeVar, *ssa.Global:
+					return true
+				default:
+					return false
+				}
+			}
+			return false
+		}
+		for _, b := range fn.Blocks {
+			for _, in := range b.Instrs {
+				switch x := in.(type) {
+				case *ssa.Select:
+					if len(x.States) > 0 {
+						bad(in, "a select on channels")
+					}
+				case *ssa.Send:
+					bad(in, "a channel send")
+				case *ssa.UnOp:
+					if x.Op == token.ARROW {
+						bad(in, "a channel receive")
+					}
+				case *ssa.Store:
+					if _, isField := x.Addr.(*ssa.FieldAddr); isField && fromOutside(x.Addr) {
+						bad(in, "a store to a field of the value")
+					}
+				case ssa.CallInstruction:
+					c := x.Common()
+					if sc := c.StaticCallee(); sc != nil && sc.Pkg != nil && sc.Pkg.Pkg.Path() == "sync/atomic" {
+						switch sc.Name() {
+						case "Store", "Swap", "CompareAndSwap", "Add", "And", "Or":
+							bad(in, "an atomic "+sc.Name())
+						}
+					}
+				}
+			}
+		}
+		if clean {
+			r.ok(rule, fn, "printing function "+fn.Name(), fn.Pos(), "reads only")
+		}
+	}
+	r.floor(rule, "printing functions of the module", n, 4)
+}
+
+// readStringCursorRule: load-file reads a file by handing read-string a text that starts with ';; $MODULE <file>':
+// the reader takes the module name from that line only when the cursor it is given names no module. The
+// read-string builtin therefore reads under no cursor of its own.
+func readStringCursorRule(w *World, r *Report, rule string) {
+	r.rule(rule, "the read-string builtin hands the reader no cursor of its own (nil): the module a text read at run time belongs to is the one its ';; $MODULE' first line names - which is how load-file gives the forms of a file the file's name - and is not overridden by a fixed name")
+	fn := w.builtin("read-string")
+	rs := w.Fn("reader", "Read_str")
+	if fn == nil || rs == nil {
+		r.undecided(rule, nil, "read-string builtin / reader.Read_str", token.NoPos, "functions no longer resolve")
+		return
+	}
+	n := 0
+	for _, f := range w.withPkgHelpers(fn) {
+		for _, c := range staticCallsTo(f, rs) {
+			if len(c.Call.Args) < 2 {
+				continue
+			}
+			n++
+			r.check(isNilConst(c.Call.Args[1]), rule, f, "cursor handed to the reader by read-string", c.Pos(), "nil", "read-string reads under a cursor of its own ("+describeVal(nil, c.Call.Args[1], 0)+"): the module named by the text's ';; $MODULE' line is ignored, so every error in a file loaded with load-file is reported in that fixed module instead of the file")
+		}
+	}
+	r.floor(rule, "calls of the reader by the read-string builtin", n, 1)
+}
+
+// applyVerbatimRule: types.Apply is the second way into a bound function (apply, map, update, swap! call it).
+// What the bound function answered - value, error result, or the error made from its panic - is what Apply
+// answers: after the call of the function value every return hands back that call's own two results.
+func applyVerbatimRule(w *World, r *Report, e *Engine, rule string) {
+	r.rule(rule, "in types.Apply every return that follows the call of a Go function value (Func.Fn, a bare func) returns that call's value and error as they are: the error a bound function returned, or the one made from its panic, is not replaced on the way (by a uniform message, say), so errors.Is / errors.As still reach the original through apply, map, update and swap!")
+	ap := w.Fn("types", "Apply")
+	if ap == nil {
+		r.undecided(rule, nil, "types.Apply", token.NoPos, "function no longer resolves")
+		return
+	}
+	n := 0
+	for _, b := range ap.Blocks {
+		for _, in := range b.Instrs {
+			c, ok := in.(*ssa.Call)
+			if !ok || c.Call.StaticCallee() != nil || c.Call.IsInvoke() {
+				continue
+			}
+			if _, isB := c.Call.Value.(*ssa.Builtin); isB {
+				continue
+			}
+			if res := c.Call.Signature().Results(); res.Len() != 2 || !isMalType(res.At(0).Type()) || !isErrorType(res.At(1).Type()) {
+				continue
+			}
+			n++
+			for _, rt := range (&evalModel{}).returns(ap) {
+				ret := rt[0].(*ssa.Return)
+				if !(ret.Block() == b || b.Dominates(ret.Block())) {
+					continue
+				}
+				v0, _ := rt[1].(ssa.Value)
+				v1, _ := rt[2].(ssa.Value)
+				e0, ok0 := v0.(*ssa.Extract)
+				e1, ok1 := v1.(*ssa.Extract)
+				verbatim := ok0 && ok1 && e0.Tuple == ssa.Value(c) && e1.Tuple == ssa.Value(c) && e0.Index == 0 && e1.Index == 1
+				r.check(verbatim, rule, ap, "results handed back after the call of a Go function value", ret.Pos(), "the call's own value and error", "Apply answers with ("+describeVal(e, v0, 0)+", "+describeVal(e, v1, 0)+") instead of what the function it called answered: an error result or converted panic of a bound function reached through apply, map, update or swap! no longer wraps the original")
+			}
+		}
+	}
+	r.floor(rule, "calls of Go function values in Apply", n, 2)
 }
